@@ -158,6 +158,9 @@ namespace sqf::runtime
                 return result::ok;
             case behavior::result::exchange:
                 m_instruction_set = m_error_behavior->get_instruction_set(*this);
+                // The handler code now runs in this frame. It must not handle what it raises itself:
+                // errors and throws inside a handler belong to the next enclosing handler.
+                m_error_behavior = {};
                 seek(0, ::sqf::runtime::frame::seekpos::start);
 #ifdef DF__SQF_RUNTIME__ASSEMBLY_DEBUG_ON_EXECUTE
 
